@@ -86,16 +86,6 @@ Section LeafHit.
   Qed.
 End LeafHit.
 
-(* the newer tree reaches the value v along the mapping path q, through non-deleting mappings with unique keys *)
-Fixpoint nreach (o : node) (q : path) (v : node) : Prop :=
-  match q with
-  | [] => o = v
-  | k :: r => match o with
-              | Comp CDict fo xo cho => delete o = false /\ NoDup (map fst cho) /\ match aget k cho with Some c => nreach c r v | None => False end
-              | _ => False
-              end
-  end.
-
 Theorem placeholder_overwritten : forall q fuel p s o r w v f0 v0,
   q <> [] -> on_merge [] fuel p s o = Ok (r, w) -> nreach o q v -> dget s q = Some (Leaf LRequired f0 v0) ->
   has_priority_over (Leaf LRequired f0 v0) v false = false -> explicit_delete v = false ->
